@@ -265,7 +265,11 @@ pub fn drive(args: &[String]) {
     let n = arg_num(args, "--n", 200) as usize;
     for _ in 0..n {
         let insts = subset_module(&mut rng, &[]);
-        if let Some(m) = load(&insts, *rng.pick(&[0x0001_0000u32, 0x0001_0300, 0x0001_0600, 0x0001_0301, 0x0101_0300, 0xffff_ffff, 0])) { out.ev(lift_event(&m, "subset", None)); }
+        if let Some(mut m) = load(&insts, *rng.pick(&[0x0001_0000u32, 0x0001_0300, 0x0001_0600])) {
+            // "preserves the version word": whatever the word holds (the loader normalises it, so it is set on the module)
+            if rng.chance(1, 3) { if let Some(h) = m.header.as_mut() { h.version = *rng.pick(&[0x0001_0301u32, 0x0101_0300, 0xffff_ffff, 0, 0x0000_00ff]); } }
+            out.ev(lift_event(&m, "subset", None));
+        }
     }
     // per-opcode positional mapping: every result-producing opcode whose operands are ids / integer literals only.
     // For each id operand the probe tries a plain id, then a type id, then a constant id and keeps the first that lifts.
